@@ -89,14 +89,16 @@ var theC09 = &c09{}
 
 func init() { register(theC09) }
 
-func (*c09) ID() string { return "C09" }
+func (*c09) ID() string       { return "C09" }
 func (*c09) New() interface{} { return &c09Case{} }
 func (*c09) Rule() string {
 	return "fixed workload family (6 writer scripts x wc{0,1,2,4}; 6 reader histories x 3 files x rd{1,2,4} x {no cache, LRU(2)}); each workload is first run fault-free to count its underlying Write/Read/Seek calls N, then EVERY call index k<N+1 x fault kind {error without data, error after partial data} x {transient, persistent} is enumerated (exhaustive axis) and re-run under S seeded schedules with disk delays (quick S=6, thorough: cycling until the time budget ends); after the first error the client keeps using the API (remaining ops, Wait, Close). non-trivial: the fault fired while library goroutines other than the client were alive; distinct = (case, schedule signature)"
 }
 
 func c09WriterScripts() [][]WOp {
-	w := func(n int, kind string) WOp { return WOp{Op: "write", P: Payload{Len: n, Kind: kind, Seed: uint32(n)*7 + 1}} }
+	w := func(n int, kind string) WOp {
+		return WOp{Op: "write", P: Payload{Len: n, Kind: kind, Seed: uint32(n)*7 + 1}}
+	}
 	fl, wt := WOp{Op: "flush"}, WOp{Op: "wait"}
 	many := []WOp{}
 	for i := 0; i < 6; i++ {
